@@ -6,6 +6,8 @@ Model: YouVerif/C10/Model.lean (hand-written, tied to core/state by the correspo
 import YouVerif.C10.Proofs
 namespace YouVerif.C10
 
+/-! ## 1. roots are a function of content -/
+
 /-- extensional equality of the three stores (as the leaves their tries hold) -/
 def TEq (t₁ t₂ : Tries) : Prop :=
   CEq t₁.acct t₂.acct ∧ CEq (valContent t₁.val) (valContent t₂.val) ∧ CEq (stkContent t₁.stk) (stkContent t₂.stk)
@@ -15,5 +17,80 @@ number of writes that produced them (shadowed older bindings, deletes, re-writes
 theorem roots_content_only (P : Prim) (t₁ t₂ : Tries) (h : TEq t₁ t₂) : rootsOf P t₁ = rootsOf P t₂ := by
   obtain ⟨h1, h2, h3⟩ := h
   simp [rootsOf, norm_ext h1, norm_ext h2, norm_ext h3]
+
+/-- test (non-vacuity): two different write histories of the same content -/
+example : TEq { acct := cput (cput (cput [] [1] [7]) [2] [8]) [1] [9] } { acct := cput (cput [] [1] [9]) [2] [8] } := by
+  refine ⟨?_, CEq.refl _, CEq.refl _⟩
+  intro k
+  simp only [cget_cput, cget_nil]
+  by_cases h1 : ([1] : Bytes) = k
+  · subst h1; simp
+  · by_cases h2 : ([2] : Bytes) = k <;> simp [h1, h2]
+
+/-! ## 2. the flush does not depend on the iteration order of the dirty sets (Go maps) -/
+
+/-- IntermediateRoot iterates `journal.dirties`, `stateObjectsPending`, `validatorObjectsDirty` and
+`stakingRecordsDirty` in Go map order.  For every permutation of all four, the account leaves, the validator
+record leaves and the staking record leaves written are the same.  (The index / statistics singletons are covered
+by `flush_order_independent_statement` below.) -/
+theorem flush_order_independent (P : Prim) (del : Bool) (s : St) (j p d r : List Bytes)
+    (hj : j.Perm s.acctJ) (hp : p.Perm s.acctP) (hd : d.Perm s.valD) (hr : r.Perm s.recD) :
+    let s' := { s with acctJ := j, acctP := p, valD := d, recD := r }
+    CEq (iroot P del s').t.acct (iroot P del s).t.acct ∧
+    CEq (iroot P del s').t.val.vals (iroot P del s).t.val.vals ∧
+    CEq (iroot P del s').t.stk.recs (iroot P del s).t.stk.recs := by
+  intro s'
+  refine ⟨?_, ?_, ?_⟩
+  · intro a
+    rw [iroot_acct_get, iroot_acct_get, finalise_get, finalise_get]
+    simp only [s', hj.mem_iff, hp.mem_iff]
+  · intro a
+    rw [iroot_vals_get, iroot_vals_get]
+    simp only [s', hd.mem_iff]
+  · intro k
+    rw [iroot_recs_get, iroot_recs_get]
+    simp only [s', hr.mem_iff]
+
+/-- full statement (all leaves of all three tries, i.e. including the saved index and statistics).  Not proved: the
+statistics are decremented with a *clamped* subtraction when a validator is deleted at the flush, which commutes
+only while no clamp fires (deleted validators have zero stake and token in every generated history). -/
+def flush_order_independent_statement : Prop :=
+  ∀ (P : Prim) (del : Bool) (s : St) (j p d r : List Bytes), j.Perm s.acctJ → p.Perm s.acctP → d.Perm s.valD → r.Perm s.recD →
+    (∀ a v, a ∈ s.valD → aget s.vals a = some v → wd del v = true → v.stake = 0 ∧ v.token = 0) →
+    TEq (iroot P del { s with acctJ := j, acctP := p, valD := d, recD := r }).t (iroot P del s).t
+
+/-! ## 3. the flush depends on the logical state only (regrouping of writes and flush points) -/
+
+/-- cache coherence: a live object that is neither journal-dirty nor pending is exactly what the trie holds -/
+def CohA (P : Prim) (s : St) : Prop :=
+  ∀ a o, aget s.accts a = some o → a ∉ s.acctJ → a ∉ s.acctP → cget s.t.acct a = acctLeaf P o
+
+/-- after IntermediateRoot the leaf of every live object is the encoding of the (finalised) object — also of the
+objects flushed by earlier IntermediateRoot calls, wherever those were placed -/
+theorem iroot_leaf_of_live (P : Prim) (del : Bool) (s : St) (h : CohA P s) (a : Bytes) (o : Acct)
+    (ho : aget (finalise del s).accts a = some o) : cget (iroot P del s).t.acct a = acctLeaf P o := by
+  rw [iroot_acct_get]
+  by_cases hd : a ∈ s.acctJ ∨ a ∈ s.acctP
+  · rw [if_pos hd, ho]; rfl
+  · rw [if_neg hd]
+    have hj : a ∉ s.acctJ := fun h' => hd (Or.inl h')
+    have hp : a ∉ s.acctP := fun h' => hd (Or.inr h')
+    rw [finalise_get, if_neg hj] at ho
+    exact h a o ho hj hp
+
+/-- Two states — reached by any histories, with any placement of Finalise / IntermediateRoot calls and any dirty
+bookkeeping — that hold the same (finalised) live objects and the same leaves where no object is live, flush to the
+same account trie content; hence (`roots_content_only`) to the same root. -/
+theorem flush_depends_on_objects_only (P : Prim) (del : Bool) (s₁ s₂ : St) (h₁ : CohA P s₁) (h₂ : CohA P s₂)
+    (hv : ∀ a, aget (finalise del s₁).accts a = aget (finalise del s₂).accts a)
+    (hb : ∀ a, aget (finalise del s₁).accts a = none → cget s₁.t.acct a = cget s₂.t.acct a) :
+    CEq (iroot P del s₁).t.acct (iroot P del s₂).t.acct := by
+  intro a
+  cases ho : aget (finalise del s₁).accts a with
+  | some o => rw [iroot_leaf_of_live P del s₁ h₁ a o ho, iroot_leaf_of_live P del s₂ h₂ a o ((hv a).symm.trans ho)]
+  | none =>
+    have ho2 : aget (finalise del s₂).accts a = none := (hv a).symm.trans ho
+    rw [iroot_acct_get, iroot_acct_get, ho, ho2]
+    simp [hb a ho]
 
 end YouVerif.C10
